@@ -119,4 +119,12 @@ def generate(srcdir, fps):
         for meth in meths:
             fps[f"prop.{cname}.{meth}"] = T.fingerprint(m.func(meth, k))
     fps["prop.vSkip"] = T.fingerprint(vskip)
+    # the ordered caseless map under vRecur (hand model Model/Caseless.v, properties C17 and C19)
+    mc = T.Mod(srcdir, "icalendar/caselessdict.py")
+    for fn in ("canonsort_keys", "canonsort_items"):
+        fps[f"caselessdict.{fn}"] = T.fingerprint(mc.func(fn))
+    kc = mc.klass("CaselessDict")
+    for meth in ("__init__", "__getitem__", "__setitem__", "__delitem__", "__contains__", "get", "setdefault", "pop",
+                 "popitem", "has_key", "update", "copy", "__eq__", "__ne__", "sorted_keys", "sorted_items"):
+        fps[f"caselessdict.CaselessDict.{meth}"] = T.fingerprint(mc.func(meth, kc))
     return OUTPUT, "".join(out)
